@@ -30,6 +30,32 @@ def kind_of(e):
     return KINDS.get(type(e).__name__, "other:" + type(e).__name__)
 
 
+def scalar_constant_as_1d(e, data):
+    """True when the reader's exit is the documented corner outside the reader model: `Tensor.as_1D` (bias operand of a
+    convolution / FULLY_CONNECTED) on a CONSTANT tensor whose shape is empty — `np.prod([])` is the float 1.0, so
+    `values.reshape([1.0])` raises TypeError, which the reader turns into its invalid-file diagnosis and `sys.exit(1)`; the model
+    has `prod [] = 1`. Confirmed three ways: the exit's cause is that TypeError, it was raised in `as_1D`, and the file does hold
+    a constant tensor of empty shape. A rank-0 bias is not a valid operand, the file is rejected with a diagnosis and nothing
+    is written, so the property is not concerned; counted, never silently dropped."""
+    import traceback
+
+    ctx = getattr(e, "__context__", None)
+    if not (isinstance(e, SystemExit) and isinstance(ctx, TypeError) and "cannot be interpreted as an integer" in str(ctx)):
+        return False
+    if not any(fr.name == "as_1D" for fr in traceback.extract_tb(ctx.__traceback__)):
+        return False
+    from ethosu.vela.tflite.Model import Model
+
+    m = Model.GetRootAsModel(bytearray(data), 0)
+    for si in range(m.SubgraphsLength()):
+        sg = m.Subgraphs(si)
+        for ti in range(sg.TensorsLength()):
+            t = sg.Tensors(ti)
+            if t.ShapeLength() == 0 and 0 <= t.Buffer() < m.BuffersLength() and m.Buffers(t.Buffer()).DataLength() > 0:
+                return True
+    return False
+
+
 def read_real(data):
     """TFLiteGraph(data) with the operators of every subgraph recorded in creation order"""
     from ethosu.vela import tflite_reader as tr
@@ -214,6 +240,9 @@ def run_case(seed, idx, malformed=False, do_perturb=True, payloads=True):
     except BaseException as e:  # noqa: B902  (the reader calls sys.exit on some malformed files)
         if isinstance(e, (KeyboardInterrupt, MemoryError)):
             raise
+        if scalar_constant_as_1d(e, data):
+            case["read"] = ("skipped", "outside:scalar-constant-as_1D")
+            return case
         case["read"] = ("err", kind_of(e), repr(e)[:200])
         return case
     ids, per_sg = seed_ids(g, rec)
@@ -259,6 +288,8 @@ def reread_real(out):
     except BaseException as e:  # noqa: B902
         if isinstance(e, (KeyboardInterrupt, MemoryError)):
             raise
+        if scalar_constant_as_1d(e, out):
+            return ("skipped", "outside:scalar-constant-as_1D")
         return ("err", kind_of(e), repr(e)[:200])
     ids, per_sg = seed_ids(g, rec)
     try:
